@@ -223,7 +223,13 @@ C12_E2E(old, obs, gg, c) ==
     IN /\ \A i, j \in 1..Len(notif) : i # j => notif[i] # notif[j]
        /\ \A T \in TicksSeen(old, c) :
              LET total == before(T) + Processed(old, obs, c, T)
-             IN (Processed(old, obs, c, T) > 0 /\ total = CntOf(old, c, T)) <=> (\E i \in 1..Len(notif) : notif[i] = T)
+                 done == Processed(old, obs, c, T) > 0 /\ total = CntOf(old, c, T)
+                 told == \E i \in 1..Len(notif) : notif[i] = T
+                 \* a tick 64 or more behind the newest tick processed is outside the tracker's window: it counts
+                 \* as received and need not be notified (C12's first sentence)
+                 seen == (DOMAIN gg.processed[c]) \cup {X \in TicksSeen(old, c) : Processed(old, obs, c, X) > 0} \cup {0}
+                 newest == CHOOSE x \in seen : \A y \in seen : y <= x
+             IN (told => done) /\ ((done /\ newest - T < 64) => told)
        /\ \A i \in 1..Len(notif) : notif[i] \in TicksSeen(old, c)
 
 \* monitors evaluated on the observed state; `gePre` is the event ghost before this step
